@@ -7,6 +7,7 @@ CONSTANT WSqrt = 8
 CONSTANT WInc = 4
 INVARIANT LevelInvariant
 INVARIANT MinimalBitsAndBound
+INVARIANT TrailingAddersDeadInXAIG
 INVARIANT BasisRespected
 INVARIANT AlgoIdentities
 PROPERTY Terminates
